@@ -52,8 +52,10 @@ def run_mutants(pids):
                 cmd = [os.path.join(VERIF, "check"), pid] + (["--only", only] if only else [])
                 out = subprocess.run(cmd, capture_output=True, text=True, env=env)
                 refuted = "VIOLATION" in out.stdout
-                ok = refuted == (expect == "refute") and out.returncode in (0, 1)
-                print(f"{'ok  ' if ok else 'FAIL'} {pid} {label}: expect={expect} got={'refuted' if refuted else 'held'} rc={out.returncode}")
+                undecided = "NOTE undecided" in out.stdout and "unsupported" in out.stdout or "solver unknown" in out.stdout
+                got = "refute" if refuted else ("undecided" if undecided else "hold")
+                ok = got == expect and out.returncode in (0, 1)
+                print(f"{'ok  ' if ok else 'FAIL'} {pid} {label}: expect={expect} got={got} rc={out.returncode}")
                 if not ok:
                     bad += 1
                     print(out.stdout[-1500:])
